@@ -224,7 +224,7 @@ def run(ctx):
                 "urlsplit/urljoin; (b) redirect chains on the real Patron + Valets over the socket double: every "
                 "single-hop chain from an http and an https origin over a ninth of the grammar (all of it in the thorough tier) and "
                 "all relative references from 4 origins, plus seeded random chains of 1..5 hops with statuses "
-                "300/301/302/303/307 and occasionally a non-redirect 3xx; non-trivial = relative Location, change of "
+                "300/301/302/303/307 and occasionally a non-redirect 3xx; plus 60 (800) sequences of 2-3 requests, each with its own chain of 0-3 hops, on ONE Patron; non-trivial = relative Location, change of "
                 "host/port/scheme, or refusal; distinct by origin+hops")
     ctx.assumptions = [
         "transport double fakenet; TLS double: ClientTls.wrap/handshake are no-ops in the harness, servers are plain",
@@ -310,6 +310,57 @@ def run(ctx):
     for st, hops, res, why in failing[:3]:
         ctx.tie_broken("correspondence", "property statement on the implementation", "%s; start=%r hops=%r" % (why, st, hops))
 
+    # SEVERAL requests on ONE Patron: 2-3 requests, each with its own chain (possibly empty); every
+    # delivered response must carry exactly its own request's redirect responses
+    seq_cases, seq_meta, req_failing = [], [], []
+    http_locs = [l for l in locs if l.startswith("http://")]
+    for _ in range(ctx.n(60, 800)):
+        st = ctx.rng.choice([STARTS[0], STARTS[2]])
+        plans = []
+        for i in range(ctx.rng.randint(2, 3)):
+            hops = []
+            for _ in range(ctx.rng.choice([0, 1, 1, 2, 3])):
+                loc = ctx.rng.choice(RELS[:7]) if ctx.rng.random() < 0.5 else ctx.rng.choice(http_locs)
+                hops.append((ctx.rng.choice(REDIRECT_STATUSES), loc))
+            plans.append((u"/r%d" % i, ctx.rng.choice(["", "x=%d" % i]), hops))
+        res = harness.run_requests((st[0], st[1], st[2], "/", ""), plans)
+        ctx.case({"start": st, "plans": plans, "delivered": len(res["delivered"])},
+                 nontrivial=sum(1 for p in plans if p[2]) >= 1, kind="requests=%d" % len(plans))
+        why = None
+        if res["error"]:
+            why = "exception escaped Patron.serviceAll: %s" % res["error"]
+        else:
+            for i, (plan, d) in enumerate(zip(plans, res["delivered"] + [None] * len(plans))):
+                want = [(s_, l_) for s_, l_ in plan[2]]
+                if d is None:
+                    why = "request %d: no response delivered" % i
+                elif d[0] != 200 or d[3] != str(i):
+                    why = "request %d: delivered status %r for request %r" % (i, d[0], d[3])
+                elif d[2] != want:
+                    why = "request %d (%d of %d on this Patron) delivered chain %r, its own hops were %r" % (
+                        i, i + 1, len(plans), d[2], want)
+                if why:
+                    break
+            if not why and (res["redirects_left"] or res["waited"]):
+                why = "afterwards waited=%r, %r redirects left" % (res["waited"], res["redirects_left"])
+        if why:
+            req_failing.append((st, plans, res, why))
+        chains = clist(["(%s, (200, %s))" % (clist(["(%s, %s)" % (cz(s_), cz(j)) for j, (s_, l_) in enumerate(p[2])], "(Z * Z)"), cz(i))
+                        for i, p in enumerate(plans)], "(list (Z * Z) * (Z * Z))")
+        got = clist(["(%s, %s)" % (cz(d[0]), clist([cz(c[0]) for c in d[2]], "Z")) for d in res["delivered"] if d is not None],
+                    "(Z * list Z)")
+        seq_cases.append(("(map (fun r => (rs_status r, map fst (rs_redirects r))) (responses (service_all true "
+                          "{| redirects := []; responses := []; waited := true |} (flatten_chains %s))))" % chains, got))
+        seq_meta.append((st, plans, res))
+    for st, plans, res, why in req_failing[:3]:
+        ctx.tie_broken("correspondence", "property statement on the implementation (several requests on one Patron)",
+                       "%s; start=%r plans=%r" % (why, st, plans))
+    ctx.extra["request_sequence_failures"] = len(req_failing)
+    bad3 = ctx.coq_cases(HEADER + "Require Import V.C34.Proofs.\n", "fin_eqb", seq_cases, shard=100, name="requests")
+    for i in bad3[:3]:
+        ctx.tie_broken("correspondence", "C34 model service_all over several requests vs Patron",
+                       "start=%r plans=%r delivered=%r" % (seq_meta[i][0], seq_meta[i][1], seq_meta[i][2]["delivered"]))
+
     # sampled only (outside the modelled grammar): escapes, unicode, dot segments -- implementation vs urljoin oracle
     extra = [("/sp%20ace?q=a%20b", None), ("/pl?q=a+b&r=%26", None), ("../up", None), ("./same/./x", None),
              ("/%C3%BC?u=%C3%BC", None), ("http://127.0.0.1:6102/x%2Fy?k=v%3Dw", None)]
@@ -327,6 +378,12 @@ def run(ctx):
     ctx.exhaustive = False
 
     def search():
+        if req_failing and not failing:
+            st, plans, res, why = min(req_failing, key=lambda c: (len(c[1]), sum(len(p[2]) for p in c[1])))
+            return {"key": "redirect-chain-leaks-into-next-request", "start": st,
+                    "requests": [{"path": p[0], "query": p[1], "hops": p[2]} for p in plans], "why": why,
+                    "delivered": repr(res["delivered"]), "requests_seen_by_servers": res["seen"],
+                    "contradicts": "C34.Props.each_response_carries_its_own_chain"}
         best = None
         for st, hops, res, why in failing:
             size = (len(hops), sum(len(l) for s, l in hops))
